@@ -159,6 +159,7 @@ InfoBig(e, c, o, cand) ==
       nnamed |-> Cardinality({i \in firsts : c.nb[i]}),
       nfallback |-> Cardinality({i \in firsts : c.fb[i]}),
       nold |-> Cardinality(B!OldE(s, B!SPEC)), nname |-> Cardinality(o.named), nguess |-> Cardinality(o.guessed),
+      nnew |-> Cardinality(o.edges \ B!OldE(s, B!SPEC)),        \* bonds this run has to ADD to its input
       nmol |-> Cardinality(o.mols), ninmol |-> Cardinality({s.atoms[i].mol : i \in DOMAIN s.atoms}),
       ncand |-> Cardinality(cand),
       \* close pairs whose only failing conjunct is x: each of them is a bond the real code must NOT have made
